@@ -1,4 +1,5 @@
 from abc import ABC, abstractmethod
+import numpy as np
 
 
 class BaseSolve(ABC):
@@ -73,6 +74,7 @@ class MarginalRayHeightSolve(BaseSolve):
         # slope before the surface applies
         offset = (self.height - ya[self.surface_idx]) / \
             ua[self.surface_idx - 1]
+        offset = float(np.ravel(offset)[0])  # keep vertex positions scalar
 
         # shift current surface and all subsequent surfaces
         for surface in self.optic.surface_group.surfaces[self.surface_idx:]:
